@@ -3,7 +3,7 @@
     Proofs_C15.item_spec with one more case.  New file. *)
 From Coq Require Import ZArith List Bool Lia ZifyBool.
 From AwkV Require Import Base Layout LayoutInd Valid.
-From AwkJson Require Import Json Proofs_C15 Proofs_C15b Proofs_C15e.
+From AwkJson Require Import Json Proofs_C15 Proofs_C15b Proofs_C15d Proofs_C15e.
 Import ListNotations.
 Open Scope Z_scope.
 
@@ -292,3 +292,45 @@ Example tojson_value_wide_ex :
     Ok (VList [VRec [([99], VStr true [33]); ([110], VNum (DZ 1))]; VNone;
                VRec [([99], VStr true [33]); ([110], VNum (DZ 3))]], []).
 Proof. vm_compute. repeat split. Qed.
+
+(* ================================================================== the witnesses, in the form stated in Props *)
+Theorem fromjson_is_fromiter_dupkeys_refuted_thm :
+  exists text d v, do_parse no_opts text = JDocs [d] /\ json_loads d = Ok (v, []) /\ cmds v = d /\
+                   py_nodup v = false /\ cmds (py_norm v) <> d.
+Proof.
+  destruct Proofs_C15d.fromjson_is_fromiter_dupkeys_refuted as (d & v & H1 & H2 & H3 & H4 & _ & H6).
+  eexists _, d, v. repeat split; eassumption.
+Qed.
+
+Theorem tojson_nonfinite_default_refuted_thm :
+  exists o c evs, frag15 c = true /\ u64ok c = true /\ text_exact o c = false /\
+                  tojson_events o c = Ok evs /\ parse (render evs) = Err EValue.
+Proof.
+  destruct Proofs_C15e.tojson_nonfinite_default_refuted as (H1 & H2 & H3 & H4 & H5 & H6).
+  eexists _, _, _. split; [exact H1|]. split; [exact H2|]. split; [exact H3|]. split; [exact H4|].
+  rewrite H5. exact H6.
+Qed.
+
+Theorem tojson_value_char_outside_string_refuted_thm :
+  exists c vs v, frag15w c = false /\ to_list c = Ok vs /\
+                 (do e <- tojson_events ex_opts c; json_value e) = Ok (v, []) /\ v <> VList (map (jv ex_opts) vs).
+Proof.
+  eexists (Par (Some AChar) None (Numpy DUInt8 [2] [DZ 104; DZ 105])), _, _.
+  split; [reflexivity|]. split; [vm_compute; reflexivity|]. split; [vm_compute; reflexivity | discriminate].
+Qed.
+
+Theorem tojson_value_string_untagged_refuted_thm :
+  exists c vs v, frag15w c = false /\ to_list c = Ok vs /\
+                 (do e <- tojson_events ex_opts c; json_value e) = Ok (v, []) /\ v <> VList (map (jv ex_opts) vs).
+Proof.
+  eexists (Par (Some AString) None (ListOffset I64 [0; 2] (Numpy DUInt8 [2] [DZ 104; DZ 105]))), _, _.
+  split; [reflexivity|]. split; [vm_compute; reflexivity|]. split; [vm_compute; reflexivity | discriminate].
+Qed.
+
+Theorem tojson_value_char_nd_refuted_thm :
+  exists c vs v, frag15w c = false /\ to_list c = Ok vs /\
+                 (do e <- tojson_events ex_opts c; json_value e) = Ok (v, []) /\ v <> VList (map (jv ex_opts) vs).
+Proof.
+  eexists (ListOffset I64 [0; 2] (Par (Some AChar) None (Numpy DUInt8 [2; 2] [DZ 97; DZ 98; DZ 99; DZ 100]))), _, _.
+  split; [reflexivity|]. split; [vm_compute; reflexivity|]. split; [vm_compute; reflexivity | discriminate].
+Qed.
